@@ -40,7 +40,7 @@ EXTENDS GlomAccess
 \* =====================================================================================
 \* out: what Inspect printed (target / output reports); bind: the names the last S(..) / A.x
 \* step stored in its own scope (read by the chain that step belongs to)
-St0(heap)   == [heap |-> heap, log |-> <<>>, unk |-> FALSE, div |-> FALSE, out |-> <<>>, bind |-> <<>>]
+St0(heap)   == [heap |-> heap, log |-> <<>>, unk |-> FALSE, div |-> FALSE, out |-> <<>>, bind |-> <<>>, grefs |-> <<>>]
 ROk(st, v)  == [st |-> st, ok |-> TRUE, v |-> v, exc |-> ""]
 RErr(st, e) == [st |-> st, ok |-> FALSE, v |-> VNone, exc |-> e]
 Unk(st)     == [st EXCEPT !.unk = TRUE]
@@ -393,12 +393,16 @@ Glomit(st, env, t, s) ==
     [] s.op = "pipe" -> TupleLoop(st, env, t, s.kids, 1)
     [] s.op = "fill" -> Eval(st, [env EXCEPT !.mode = "fill"], t, s.kids[1])
     [] s.op = "auto" -> Eval(st, [env EXCEPT !.mode = "auto"], t, s.kids[1])
-    [] s.op = "ref"  ->
-         IF s.def THEN Eval(st, [env EXCEPT !.refs = << <<s.name, s.kids[1]>> >> \o @], t, s.kids[1])
-         ELSE LET j == FindKey(env.refs, s.name, 1) IN
-              IF j = 0 THEN RErr(Unk(st), "KeyError")
+    [] s.op = "ref"  ->                       \* names are lexical: Ref(name, x) is visible inside x only (the binding lives
+         \* in the Ref's own scope frame), an inner definition of the same name shadows the outer one until
+         \* its own sub-spec is finished, and a use that no definition encloses is a KeyError
+         IF s.def THEN Eval(IF env.mut = "ref_global" THEN [st EXCEPT !.grefs = << <<s.name, s.kids[1]>> >> \o @] ELSE st,
+                            [env EXCEPT !.refs = << <<s.name, s.kids[1]>> >> \o @], t, s.kids[1])
+         ELSE LET refs == IF env.mut = "ref_global" THEN st.grefs ELSE env.refs      \* (mutant: names registered call-wide)
+                  j == FindKey(refs, s.name, 1) IN
+              IF j = 0 THEN RErr(st, "KeyError")            \* no definition encloses this use
               ELSE IF env.fuel = 0 THEN RErr([st EXCEPT !.div = TRUE], "RecursionError")
-              ELSE Eval(st, [env EXCEPT !.fuel = @ - 1], t, env.refs[j][2])
+              ELSE Eval(st, [env EXCEPT !.fuel = @ - 1], t, refs[j][2])
     [] s.op = "coalesce" -> CoalLoop(st, env, t, s, 1)
     [] s.op = "call"     -> CallEval(st, env, t, s)
     [] s.op = "invoke"   -> InvokeEval(st, env, t, s)
@@ -734,6 +738,15 @@ SsetLaw(st, env, t, s, W) ==
   ELSE /\ W.ok /\ W.v = t /\ W.st.log = LastSt(rs, st).log
        /\ \A i \in 1..Len(s.names) : \E j \in 1..Len(W.st.bind) : W.st.bind[j] = <<s.names[i], rs[i].v>>
 
+\* (L13) Ref: a use stands for the sub-spec of the innermost enclosing definition of its name
+\*       (evaluated where the use stands, still inside that definition); without one it is a KeyError
+RECURSIVE Innermost(_, _, _)
+Innermost(refs, name, i) == IF i > Len(refs) THEN 0 ELSE IF refs[i][1] = name THEN i ELSE Innermost(refs, name, i + 1)
+RefUseLaw(st, env, t, s, W) ==
+  LET j == Innermost(env.refs, s.name, 1) IN
+  IF j = 0 THEN W = RErr(st, "KeyError")
+  ELSE W = Eval(st, [env EXCEPT !.fuel = @ - 1], t, env.refs[j][2])
+
 \* ---- every node of a spec tree, with the target and state it actually receives ------------
 NodeLaw(st, env, t, s, W) ==
   LET genv == [env EXCEPT !.minmode = "none"]
@@ -751,6 +764,8 @@ NodeLaw(st, env, t, s, W) ==
     [] s.op = "specs"                  -> W = Eval(st, [genv EXCEPT !.scope = s.scope \o @], t, s.kids[1])
     [] s.op = "inspect"                -> InspectLaw(st, genv, t, s, W)
     [] s.op = "set"                    -> SetLaw(st, env, t, s, W, lit)
+    [] s.op = "ref" /\ s.def          -> W = Eval(st, [genv EXCEPT !.refs = << <<s.name, s.kids[1]>> >> \o @], t, s.kids[1])
+    [] s.op = "ref" /\ ~s.def /\ env.fuel > 0 -> RefUseLaw(st, genv, t, s, W)
     [] s.op = "sget"                   -> SgetLaw(st, env, t, s, W)
     [] s.op = "sset"                   -> SsetLaw(st, env, t, s, W)
     [] s.op = "aset"                   -> W.ok /\ W.v = t /\ W.st.bind = << <<s.name, t>> >> /\ W.st.log = st.log
@@ -786,6 +801,7 @@ Lawful(st, env0, t, s) ==
        [] s.op \in {"spec", "inspect"} -> Lawful(st, genv, t, s.kids[1])
        [] s.op = "specs" -> Lawful(st, [genv EXCEPT !.scope = s.scope \o @], t, s.kids[1])
        [] s.op = "sset" -> s.kids # <<>> => Lawful(st, ArgEnv(env), t, s.kids[1])
+       [] s.op = "ref" /\ s.def /\ ~st.div -> Lawful(st, [genv EXCEPT !.refs = << <<s.name, s.kids[1]>> >> \o @], t, s.kids[1])
        [] s.op = "fill" -> Lawful(st, [genv EXCEPT !.mode = "fill"], t, s.kids[1])
        [] s.op = "auto" -> Lawful(st, [genv EXCEPT !.mode = "auto"], t, s.kids[1])
        [] s.op \in {"list", "tuple", "set"} /\ lit -> s.kids # <<>> => Lawful(st, env, t, s.kids[1])
